@@ -596,3 +596,64 @@ Proof.
     + apply c_sym. exact IH.
     + eapply c_trans; eassumption.
 Qed.
+
+(* ---------- walk succeeds on every hierarchy whose connections are whole, declared signals ---------- *)
+Lemma new_conns_total p mp ms env : forall conns, forallb (conn_declared mp ms) conns = true ->
+  exists r, new_conns p mp ms env conns = Ok r.
+Proof.
+  induction conns as [|[port c] rest IH]; intros H; cbn [new_conns]; [eauto|].
+  cbn [forallb] in H. apply andb_prop in H. destruct H as [H1 H2]. unfold conn_declared in H1. cbn [snd] in H1.
+  destruct c as [key|]; [|discriminate]. destruct (IH H2) as [rs Hrs]. rewrite Hrs.
+  destruct (assoc key env) as [f|]; [cbn [bind]; eauto|].
+  unfold has_key in H1. destruct (assoc key ms) as [w|]; [cbn [bind]; eauto|].
+  destruct (assoc key mp) as [w|]; [cbn [bind]; eauto|discriminate].
+Qed.
+
+Lemma collect_total {A} (f : A -> result wout) l : (forall y, In y l -> exists r, f y = Ok r) -> exists r, collect f l = Ok r.
+Proof.
+  induction l as [|y l IH]; intros H; cbn [collect]; [eauto|].
+  destruct (H y (or_introl eq_refl)) as [r1 E1]. rewrite E1. cbn [bind].
+  destruct IH as [r2 E2]; [intros z Hz; apply H; right; exact Hz|]. rewrite E2. cbn [bind]. eauto.
+Qed.
+
+Lemma walk_inst_total : forall x p mp ms env, sup_inst mp ms x = true -> exists r, walk_inst p mp ms env x = Ok r.
+Proof.
+  intros x. induction x as [nm dev dp c|nm ports sigs body c IHb] using hinst_ind'; intros p mp ms env H; cbn [walk_inst sup_inst] in *.
+  - destruct (new_conns_total p mp ms env c H) as [r Hr]. rewrite Hr. cbn [bind]. eauto.
+  - apply andb_prop in H. destruct H as [H1 H2]. destruct (new_conns_total p mp ms env c H1) as [r Hr]. rewrite Hr. cbn [bind].
+    rewrite forallb_forall in H2. rewrite Forall_forall in IHb.
+    destruct (collect_total (walk_inst (nm :: p) ports sigs (fst r)) body) as [r2 E2].
+    { intros y Hy. apply IHb; [exact Hy|apply H2; exact Hy]. }
+    rewrite E2. cbn [bind]. eauto.
+Qed.
+
+Lemma walk_top_total t : supported t = true -> exists r, walk_top t = Ok r.
+Proof.
+  intros H. unfold supported in H. rewrite forallb_forall in H. unfold walk_top. apply collect_total.
+  intros y Hy. apply walk_inst_total. apply H. exact Hy.
+Qed.
+
+
+(* ---------- the algorithm WITHOUT the claim registry (the pinned code) does not preserve nets ---------- *)
+Definition flatten_unchecked (t : hmod) : result fmod := r <- walk_top t ;; Ok (build t (fst r)).
+
+Definition bad_t : hmod :=
+  {| h_ports := [("p", 1)]; h_sigs := [("l:x", 1)];
+     h_body := [ISub "l" [("a", 1)] [("x", 1)]
+                  [ILeaf "r" "R" [("p", 1); ("n", 1)] [("p", CSig "a"); ("n", CSig "x")]] [("a", CSig "p")];
+                ILeaf "r2" "R" [("p", 1); ("n", 1)] [("p", CSig "l:x"); ("n", CSig "p")]] |}.
+
+Lemma unchecked_refuted :
+  exists t f a b, wf_hier t = true /\ flatten_unchecked t = Ok f /\ In a (terminals t) /\ In b (terminals t) /\
+                  ~ conn hnode (hstep t) a b /\ conn hnode (hstep (fmod_hmod f)) (tr a) (tr b).
+Proof.
+  exists bad_t. eexists. exists (HPort ["l"] "r" "n"), (HPort [] "r2" "p").
+  split; [reflexivity|]. split; [vm_compute; reflexivity|]. split; [cbn; tauto|]. split; [cbn; tauto|]. split.
+  - intros H.
+    assert (E : HSig ["l"] "x" = HSig [] "l:x").
+    { apply (conn_fixed_eq (hstep bad_t)); [|reflexivity|reflexivity].
+      eapply c_trans; [apply c_sym; apply (c_step hnode (hstep bad_t) (HPort ["l"] "r" "n"))|].
+      eapply c_trans; [exact H|]. apply (c_step hnode (hstep bad_t) (HPort [] "r2" "p")). }
+    discriminate E.
+  - apply conn_meet. exists 1%nat, 1%nat. reflexivity.
+Qed.
